@@ -1858,9 +1858,24 @@ int cif_value_clone(cif_value_tp *value, cif_value_tp **clone) {
     cif_value_tp *temp;
     cif_value_tp *to_free = NULL;
 
-    if (*clone != NULL) {
+    if (*clone == value) {
+        /* cloning a value onto itself: it already is a copy of itself */
+        return CIF_OK;
+    } else if (*clone != NULL) {
+        /*
+         * The source may be a member of the target, or contain it.  Build the copy in a scratch object before the
+         * target is cleaned, then move it into place.
+         */
+        cif_value_tp *scratch = NULL;
+        int result = cif_value_clone(value, &scratch);
+
+        if (result != CIF_OK) {
+            return result;
+        }
         cif_value_clean(*clone);
-        temp = *clone;
+        **clone = *scratch;
+        free(scratch);
+        return CIF_OK;
     } else {
         if (cif_value_create(CIF_UNK_KIND, &temp) != CIF_OK) DEFAULT_FAIL(soft);
         to_free = temp;
